@@ -27,6 +27,29 @@ type ActCase struct {
 	ExecPath int `json:"exec_path,omitempty"`
 	// > "": the same node object was run once before and returned this (custom) action then
 	Earlier string `json:"earlier,omitempty"`
+	CancelInExec bool `json:"cancel_in_exec,omitempty"` // the context is cancelled inside the (successful) exec: the run still succeeds and still reports a non-empty action
+}
+
+// zeroBaseNode embeds a BaseNode that did not come from NewBaseNode (zero value, by value / by pointer) and
+// supplies its own retry settings.
+type zeroBaseNode struct {
+	flyt.BaseNode
+	post string
+}
+
+func (n *zeroBaseNode) GetMaxRetries() int { return 1 }
+func (n *zeroBaseNode) Post(ctx context.Context, s *flyt.SharedStore, p, e any) (flyt.Action, error) {
+	return flyt.Action(n.post), nil
+}
+
+type zeroBasePtrNode struct {
+	*flyt.BaseNode
+	post string
+}
+
+func (n *zeroBasePtrNode) GetMaxRetries() int { return 1 }
+func (n *zeroBasePtrNode) Post(ctx context.Context, s *flyt.SharedStore, p, e any) (flyt.Action, error) {
+	return flyt.Action(n.post), nil
 }
 
 type probeNode struct {
@@ -59,6 +82,10 @@ func runActCase(cs *ActCase) (fs []finding) {
 			}
 		}
 		node = newBatchRun(bc).build()
+	case "zero-basenode-by-value":
+		node = &zeroBaseNode{post: cs.Post}
+	case "zero-basenode-by-pointer":
+		node = &zeroBasePtrNode{BaseNode: &flyt.BaseNode{}, post: cs.Post}
 	case "flow", "flow-in-flow":
 		sc := &scen.Scenario{Nodes: []scen.NodeSpec{
 			{Kind: scen.KBase, N: 1, Visits: []scen.Visit{{FirstOK: 1, Post: cs.Post}}},
@@ -88,6 +115,18 @@ func runActCase(cs *ActCase) (fs []finding) {
 			ns.Visits[0].FirstOK = 3
 		}
 		sc := &scen.Scenario{Nodes: []scen.NodeSpec{ns}, Root: 0, Runs: 1}
+		if cs.CancelInExec {
+			sc.Inject = scen.Inject{Kind: "cancel", At: 1} // callback #1 is the first exec attempt
+			o := scen.NewExec(sc).RunOnce()
+			if !o.ErrNil {
+				add("cancel-in-exec-failed:"+cs.Kind, "context cancelled inside a successful exec: run returned %q", o.ErrText)
+			} else if o.Action == "" {
+				add("empty-action:"+cs.Kind+":cancel-in-exec", "run of a %s node succeeded with the empty action (post returned %q; the context was cancelled inside exec)", cs.Kind, cs.Post)
+			} else if o.Action != want {
+				add("wrong-action:"+cs.Kind+":cancel-in-exec", "run returned action %q, want %q", o.Action, want)
+			}
+			return
+		}
 		node = scen.NewExec(sc).RootNode()
 		if cs.Earlier != "" { // first use of this node object
 			if a, err := flyt.Run(context.Background(), node, flyt.NewSharedStore()); err != nil || string(a) != cs.Earlier {
@@ -155,9 +194,13 @@ func runC18(c *Cfg) {
 				if scen.KindCanFB(k) {
 					cases = append(cases, &ActCase{Family: "grid", Kind: scen.KindNames[k], Post: post, Routed: routed, FailAt: -1, ExecPath: 2})
 				}
+				if !routed {
+					cases = append(cases, &ActCase{Family: "grid-cancel-in-exec", Kind: scen.KindNames[k], Post: post, FailAt: -1, CancelInExec: true})
+				}
 				// the node object has been used before and returned a custom action then
 				cases = append(cases, &ActCase{Family: "grid-reused-node", Kind: scen.KindNames[k], Post: post, Routed: routed, FailAt: -1, Earlier: "earlier-custom"})
 			}
+			cases = append(cases, &ActCase{Family: "grid", Kind: "zero-basenode-by-value", Post: post, Routed: routed, FailAt: -1}, &ActCase{Family: "grid", Kind: "zero-basenode-by-pointer", Post: post, Routed: routed, FailAt: -1})
 			cases = append(cases, &ActCase{Family: "grid", Kind: "flow", Post: post, Routed: routed, FailAt: -1}, &ActCase{Family: "grid", Kind: "flow-in-flow", Post: post, Routed: routed, FailAt: -1})
 			for n := 0; n <= 3; n++ {
 				for cc := 0; cc <= 2; cc++ {
